@@ -106,7 +106,7 @@ func c07Reject(c *Ctx, dec *ssa.Function) {
 				}
 				names := map[ssa.Value]string{}
 				for _, p := range dec.Params {
-					names[p] = p.Name()
+					names[p] = pname(p)
 				}
 				if of := newBigEnv(dec, names).bytesOf(other, call).String(); !strings.Contains(of, "b.data") {
 					continue
@@ -171,7 +171,7 @@ func c07Reject(c *Ctx, dec *ssa.Function) {
 func c07Describe(c *Ctx, f *ssa.Function, method string) (aad []string, nonce, ad string, macArgs []string) {
 	names := map[ssa.Value]string{}
 	for _, p := range f.Params {
-		names[p] = p.Name()
+		names[p] = pname(p)
 	}
 	be := newBigEnv(f, names)
 	isAAD := func(v ssa.Value) bool {
@@ -302,7 +302,12 @@ func c07Seq(c *Ctx, dec, enc *ssa.Function) {
 	}
 	// incSeq itself
 	if f := c.Fn("gmtls", "(*halfConn).incSeq"); f != nil {
-		ok, why := c07IncForm(f)
+		ok, decided, why := bigEndianIncrement(f, "seq", 8)
+		if !decided {
+			// outside the abstract domain: the syntactic form rule decides
+			dbg("incSeq abstract evaluation undecided: %s", why)
+			ok, why = c07IncForm(f)
+		}
 		c.Check(ok, rule, fname(f), "big-endian increment by one with carry, panic instead of wrap-around", why, "incSeq is not +1 on the 8-byte big-endian counter: "+why, f.Pos())
 	} else {
 		c.Missing(rule, "gmtls.(*halfConn).incSeq", "method", "not found")
@@ -716,7 +721,7 @@ func c07MacFn(c *Ctx) {
 	}
 	names := map[ssa.Value]string{}
 	for _, p := range f.Params {
-		names[p] = p.Name()
+		names[p] = pname(p)
 	}
 	be := newBigEnv(f, names)
 	var seq []string
